@@ -622,9 +622,149 @@ Scenario gen(Args const& a, Rng& rng, bool nat_focus)
 	return sc;
 }
 
+bool overload_peer_check(int overload, ip::tcp::endpoint const& reported, ip::tcp::endpoint const& expect_addr)
+{
+	return overload == 1 && reported.address() != expect_addr.address();
+}
+
+// ---------------------------------------------------------------------------------------------
+// One accept-target socket pending on two acceptors of a node (as the library's own multi-homed test does), the
+// first connection either closed by its accept handler or still established when the second SYN arrives. The
+// second accept re-uses the socket object: from then on it is the other socket of the SECOND pair. What is checked
+// is the statement's last sentence for that pair (its data arrives at the other socket of the pair, intact, and
+// nowhere else) and, for the superseded pair, that nothing but a prefix of its own data ever arrived.
+struct SharedEnd
+{
+	ip::tcp::socket* s = nullptr; OpLog* ops = nullptr; int obj = 0;
+	std::vector<std::uint8_t> msg; std::size_t woff = 0; bool wfail = false;
+	std::vector<std::uint8_t>* sink = nullptr; std::uint8_t rbuf[1500]; bool eof = false;
+	void write_more()
+	{
+		if (woff >= msg.size()) return;
+		OpPtr w = ops->make("tcp.write", obj);
+		API(s->async_write_some(asio::buffer(msg.data() + woff, msg.size() - woff), track2(w, [this](error_code const& ec, std::size_t n) {
+			if (ec) { wfail = true; return; }
+			woff += n; write_more(); })));
+	}
+	void read_more()
+	{
+		OpPtr r = ops->make("tcp.read", obj, true);
+		std::vector<std::uint8_t>* into = sink;
+		API(s->async_read_some(asio::buffer(rbuf, sizeof(rbuf)), track2(r, [this, into](error_code const& ec, std::size_t n) {
+			if (ec) { if (ec == boost::asio::error::eof) eof = true; return; }
+			into->insert(into->end(), rbuf, rbuf + n);
+			if (sink == into) read_more(); })));
+	}
+};
+
+void run_shared_case(Args const& a, std::uint64_t c, Rng& rng)
+{
+	Report& r = R();
+	Net net; EvLog log; OpLog ops;
+	net.log = &log;
+	static std::vector<std::int64_t> const lats = {1000, 1000000, 5000000, 20000000};
+	QSpec q; q.bw = rng.coin(1, 3) ? 50000000 : 0; q.lat_ns = rng.pick(lats); q.cap = 0;
+	net.def_net = {q};
+	std::vector<ip::address> const srv = {addr("10.0.1.1"), addr("fd00::1:1")};
+	std::vector<ip::address> const cx = {addr("10.1.1.2"), addr("fd00::1:1:2")}, cy = {addr("10.1.2.2"), addr("fd00::1:2:2")};
+	bool const second_v6 = rng.coin(1, 3);
+	bool const close_between = rng.coin(1, 3);
+	int const ov0 = rng.choose(2), ov1 = rng.choose(2);
+	std::int64_t const tx = rng.pick(std::vector<std::int64_t>{0, 1000000, 30000000});
+	std::int64_t const delta = rng.pick(std::vector<std::int64_t>{1000000, 5000000, 50000000, 500000000});
+	std::size_t const lens[4] = {std::size_t(rng.range(16, 6000)), std::size_t(rng.range(16, 6000)), std::size_t(rng.range(16, 6000)), std::size_t(rng.range(16, 6000))};
+	std::string const desc = fmt("one accept socket pending on two acceptors (10.0.1.1:5000 o%d, %s o%d); X connects at %" PRId64 " ms, Y %" PRId64 " ms later; first connection %s; net %s; messages %zu/%zu/%zu/%zu bytes"
+		, ov0, second_v6 ? "[fd00::1:1]:5000" : "10.0.1.1:5001", ov1, tx / 1000000, delta / 1000000, close_between ? "closed by its accept handler" : "left established", q.str().c_str(), lens[0], lens[1], lens[2], lens[3]);
+	r.cur_desc = desc;
+	std::unique_ptr<sim::simulation> sim(new sim::simulation(net));
+	M().last_clock = 0;
+	std::unique_ptr<asio::io_context> ns(new asio::io_context(*sim, srv)), nx(new asio::io_context(*sim, cx)), ny(new asio::io_context(*sim, cy));
+	std::unique_ptr<Sched> sched(new Sched(*ns));
+	std::unique_ptr<Runner> runner(new Runner(*sim));
+	ip::tcp::endpoint const ep0(srv[0], 5000), ep1(second_v6 ? srv[1] : srv[0], second_v6 ? 5000 : 5001);
+	std::unique_ptr<ip::tcp::acceptor> acc[2];
+	ip::tcp::endpoint const eps_[2] = {ep0, ep1};
+	for (int k = 0; k < 2; ++k)
+	{
+		error_code ec;
+		acc[k].reset(new ip::tcp::acceptor(*ns));
+		API(acc[k]->open(eps_[k].address().is_v4() ? ip::tcp::v4() : ip::tcp::v6(), ec));
+		API(acc[k]->bind(eps_[k], ec)); API(acc[k]->listen(5, ec));
+	}
+	std::unique_ptr<ip::tcp::socket> S(new ip::tcp::socket(*ns)), X(new ip::tcp::socket(*nx)), Y(new ip::tcp::socket(*ny));
+	// message i: position-coded bytes of key i (0: X->S, 1: S->X, 2: Y->S, 3: S->Y)
+	auto mk = [&](int i) { std::vector<std::uint8_t> m(lens[i]); fill_stream(m.data(), m.size(), mix64(hcomb(hcomb(a.seed, c), std::uint64_t(i) + 1)), 0); return m; };
+	std::vector<std::uint8_t> const m0 = mk(0), m1 = mk(1), m2 = mk(2), m3 = mk(3);
+	std::vector<std::uint8_t> s_from[2], x_got, y_got;
+	SharedEnd se[2], xe, ye; // se[k]: the shared socket in its role as acceptor k's accepted socket
+	int order[2] = {-1, -1}; int ndone = 0; int acc_ec[2] = {-999, -999}; int conn_ec[2] = {-999, -999};
+	ip::tcp::endpoint peer_ep[2];
+	for (int k = 0; k < 2; ++k)
+	{
+		se[k].s = S.get(); se[k].ops = &ops; se[k].obj = 200 + k; se[k].msg = k == 0 ? m1 : m3; se[k].sink = &s_from[k];
+		OpPtr op = ops.make("tcp.accept", 100 + k);
+		auto done = [&, k](error_code const& ec) {
+			acc_ec[k] = ec.value();
+			if (ec) return;
+			order[ndone++] = k;
+			if (ndone == 2) se[order[0]].sink = nullptr; // the earlier role's read loop must not be continued by the harness
+			if (close_between && ndone == 1) { error_code e; API(S->close(e)); return; }
+			se[k].write_more(); se[k].read_more();
+		};
+		if ((k == 0 ? ov0 : ov1) == 0) { API(acc[k]->async_accept(*S, track1(op, done))); }
+		else { API(acc[k]->async_accept(*S, peer_ep[k], track1(op, done))); }
+	}
+	xe.s = X.get(); xe.ops = &ops; xe.obj = 1; xe.msg = m0; xe.sink = &x_got;
+	ye.s = Y.get(); ye.ops = &ops; ye.obj = 2; ye.msg = m2; ye.sink = &y_got;
+	sched->at(tx, [&]() {
+		OpPtr op = ops.make("tcp.connect", 1);
+		API(X->async_connect(ep0, track1(op, [&](error_code const& ec) { conn_ec[0] = ec.value(); if (ec) return; xe.write_more(); xe.read_more(); })));
+	});
+	sched->at(tx + delta, [&]() {
+		OpPtr op = ops.make("tcp.connect", 2);
+		API(Y->async_connect(ep1, track1(op, [&](error_code const& ec) { conn_ec[1] = ec.value(); if (ec) return; ye.write_more(); ye.read_more(); })));
+	});
+	sched->start();
+	runner->run();
+	auto is_prefix = [](std::vector<std::uint8_t> const& got, std::vector<std::uint8_t> const& of) {
+		return got.size() <= of.size() && std::equal(got.begin(), got.end(), of.begin()); };
+	if (conn_ec[0] != 0 || conn_ec[1] != 0 || acc_ec[0] != 0 || acc_ec[1] != 0)
+		r.violation("C07", "shared-accept-socket:not-established", fmt("connect results %d / %d, accept results %d / %d (all four must succeed: both acceptors listen and have an accept pending)", conn_ec[0], conn_ec[1], acc_ec[0], acc_ec[1]));
+	else if (order[0] != 0 || order[1] != 1)
+		r.violation("C07", "shared-accept-socket:accept-order", fmt("accepts completed in the order %d, %d although X's SYN was sent %" PRId64 " ms before Y's over equal paths", order[0], order[1], delta / 1000000));
+	else
+	{
+		// the second pair (Y, S-as-accepted-by-acceptor-1)
+		if (s_from[1] != m2)
+			r.violation("C07", "shared-accept-socket:second-pair-data-lost", fmt("the re-accepted socket received %zu bytes from its new peer Y (%s), Y wrote %zu", s_from[1].size(), is_prefix(s_from[1], m2) ? "a prefix" : "not even a prefix", m2.size()));
+		if (y_got != m3)
+			r.violation("C07", "shared-accept-socket:second-pair-data-lost", fmt("Y received %zu bytes (%s of what the re-accepted socket wrote to it: %zu)", y_got.size(), is_prefix(y_got, m3) ? "a prefix" : "not a prefix", m3.size()));
+		// the superseded pair: only its own data, never the second pair's
+		if (!is_prefix(x_got, m1))
+			r.violation("C07", "shared-accept-socket:data-reached-wrong-socket", fmt("X received %zu bytes that are not a prefix of what was written to it", x_got.size()));
+		if (!is_prefix(s_from[0], m0))
+			r.violation("C07", "shared-accept-socket:data-reached-wrong-socket", fmt("in its first role the shared socket received %zu bytes that are not a prefix of X's message", s_from[0].size()));
+		if (overload_peer_check(ov1, peer_ep[1], ip::tcp::endpoint(second_v6 ? cy[1] : cy[0], 0)))
+			r.violation("C07", "shared-accept-socket:peer-endpoint", "accept into the re-used socket reported a peer address that is not Y's");
+		r.count("shared_accept_socket_cases_verified");
+		if (!close_between) r.count("reaccepts_into_socket_with_established_connection");
+	}
+	runner.reset(); sched.reset();
+	S.reset(); X.reset(); Y.reset(); acc[0].reset(); acc[1].reset();
+	ns.reset(); nx.reset(); ny.reset(); sim.reset();
+	r.count("clock_samples", M().clock_samples); M().clock_samples = 0;
+	r.sig(hstr(desc)); r.sample(desc);
+}
+
 void run_case(Args const& a, std::uint64_t c)
 {
 	bool const c13 = a.prop == "C13";
+	if (!c13 && c % 10 == 9)
+	{
+		Rng rng(hcomb(hcomb(a.seed, 0xC07A), c));
+		run_shared_case(a, c, rng);
+		return;
+	}
 	Rng rng(hcomb(hcomb(a.seed, c13 ? 0xC13 : 0xC07), c));
 	Scenario sc = gen(a, rng, c13);
 	R().cur_desc = sc.desc;
